@@ -38,6 +38,14 @@ CHECKS = {
          "profile, file, mmap) including whether the string scan was really skipped.", "DESIGN.md §7 C06",
          "Compiler profile and mem/file/mmap do not exist in the model: one prediction is compared with each of them. Match "
          "details are compared between configurations of the implementation (subset of the full run)."),
+ "C07": ("translation_validation", "libyara 4.5.5 itself (vendored C source, built offline) is the executable specification: "
+         "three-way run on generated rule files and inputs — libyara, boreal, and the Gallina specification of C01-C05 "
+         "evaluated by vm_compute; boreal must accept what libyara accepts and report the same rules and per-string offsets "
+         "(lengths where unique) outside the documented deviations; the Coq content is the composition of the C01/C04/C05 "
+         "theorems (model = spec) with the validated link spec = libyara.", "DESIGN.md §7 C07, notes/C07.md",
+         "Validation per generated program, not proof: 'spec = libyara' and 'boreal = libyara' are checked case by case. Hex "
+         "and regex strings have no unbounded model = spec theorem in the chain yet. libyara quirks excluded from generation "
+         "are listed in notes/C07.md; nine recorded findings."),
  "C08": ("proof", "C08_depth_bounded: a verified checker (soundness proved for all graphs) run on the call graph and recursion "
          "guards regenerated from the parser / compiler source on each run bounds the depth of every call chain by the "
          "configured limits; the rest of the property (arbitrary panics, spans on character boundaries, running time, finalize "
@@ -112,7 +120,6 @@ CHECKS = {
 
 PENDING = {
  "C03": "check under construction (regex strings / matches operator: Spec/Regex.v exists, property module not yet registered)",
- "C07": "check under construction (three-way run against libyara 4.5.5 not yet built)",
 }
 
 
@@ -128,7 +135,8 @@ def main():
                 "thorough_cmd": "./check %s --tier thorough" % pid, "evidence_file": "evidence/%s.json" % pid,
                 "replay_cmd_template": "./check %s --replay {path}" % pid, "engine": "coq-model",
                 "level_claimed": {"category": cat, "text": text, "design_ref": ref},
-                "level_note": COMMON_NOTE + note, "technique": T})
+                "level_note": COMMON_NOTE + note,
+                "technique": T if cat == "proof" else "three-way differential run (libyara / boreal / Gallina spec under vm_compute) composed with the C01-C05 Coq theorems"})
     na = [{"property_id": p, "reason": PENDING[p]} for p in ALL if p not in [c["property_id"] for c in checks]]
     m = {
         "version": 1, "setup_cmd": "./setup.sh",
